@@ -417,6 +417,31 @@ theorem check_random_state_none_not_global (b : List (String × String)) (hb : c
 example : ∃ g w', checkRandomState crsPinned .none { globalState := 1, next := 2, entropy := 77 } = some (.ok (g, w')) ∧ g.id ≠ 0 :=
   check_random_state_none_not_global crsPinned (by decide) _ (by decide)
 
+
+/-- **A generator instance is handed back as it is** (same identity, same state, world unchanged): the caller's
+    generator is then consumed across fits *by the caller's choice*; the property quantifies over explicit seeds. -/
+theorem check_random_state_instance_same (b : List (String × String)) (hb : crsOK b = true) (g : Gen) (w : World) :
+    checkRandomState b (.inst g) w = some (.ok (g, w)) := by
+  have hgoal : InstGoal b := by
+    unfold crsOK at hb
+    simp only [Bool.and_eq_true] at hb
+    obtain ⟨⟨⟨_, _⟩, h3⟩, _⟩ := hb
+    unfold InstGoal
+    split at h3
+    · rename_i g' w' heq
+      rw [heq]
+      simpa using h3
+    · simp at h3
+  exact crs_inst b hgoal g w
+
+/-- **The generated obligation implies the hypothesis of `history_independent`**: a class that passes
+    `Est.historyOK` (with any table and fuel) passes `coreOK`. -/
+theorem historyOK_implies_coreOK (tbl : List Est) (fuel : Nat) (e : Est) (h : e.historyOK tbl fuel = true) :
+    e.coreOK = true :=
+  historyOK_coreOK tbl fuel e h
+
+example : louvainSeeded.historyOK [louvainSeeded] 2 = true := by decide
+
 /-- non-vacuity: the pinned table passes, and `check_random_state(42)` in a world with two generators -/
 example : crsOK crsPinned = true := by decide
 example : checkRandomState crsPinned (.int 42) { globalState := 1, next := 2, entropy := 0 }
